@@ -46,8 +46,8 @@ def h_encode(ctx):
             vs.append(viol("encode raises", f"urlsafe_b64encode({raw!r}) raised {r.etype}"))
             continue
         e = r.value
-        if e != b64.enc(raw).encode():
-            vs.append(viol("encode differs from RFC 4648", f"urlsafe_b64encode({raw!r}) = {e!r}, reference {b64.enc(raw)!r}"))
+        if e != b64.enc_table(raw).encode():
+            vs.append(viol("encode differs from RFC 4648", f"urlsafe_b64encode({raw!r}) = {e!r}, reference {b64.enc_table(raw)!r}"))
         if any(c not in ALPHA for c in e):
             vs.append(viol("encode emits non-alphabet", f"{e!r}"))
         d = call(u.urlsafe_b64decode, e)
@@ -72,7 +72,7 @@ def judge_decode(s, r):
         if r.ok and not has_pad:
             return "accepted-impossible-length", [viol("decode accepts an impossible length", f"urlsafe_b64decode({s!r}) returned {r.value!r}")]
         return "rejected-length" if not r.ok else "pad-odd", []
-    want = b64.dec(stripped)
+    want = b64.dec_table(stripped)
     if has_pad:
         if r.ok and r.value != want:
             return "pad-wrong-value", [viol("padded input decodes to wrong octets", f"{s!r} -> {r.value!r}, expected {want!r}")]
@@ -81,7 +81,7 @@ def judge_decode(s, r):
         return "rejected-valid", [viol("decode rejects a valid string", f"urlsafe_b64decode({s!r}) raised {r.etype}")]
     if r.value != want:
         return "wrong-value", [viol("decode returns wrong octets", f"{s!r} -> {r.value!r}, expected {want!r}")]
-    return ("canonical" if b64.enc(want).encode() == s else "trailing-bits-tolerated"), []
+    return ("canonical" if b64.enc_table(want).encode() == s else "trailing-bits-tolerated"), []
 
 
 def h_decode_all(ctx):
@@ -108,7 +108,7 @@ BASES = [bytes(range(i, i + n)) for n, i in ((1, 7), (2, 9), (3, 1), (4, 250), (
 def h_decode_faults(ctx):
     u = _util()
     raw = ctx.choose("base", BASES)
-    enc = b64.enc(raw).encode()
+    enc = b64.enc_table(raw).encode()
     mode = ctx.choose("mode", ["substitute", "insert"])
     pos = ctx.choose("pos", range(len(enc) + (1 if mode == "insert" else 0)))
     vs = []
